@@ -9,8 +9,8 @@ type L = PLax<u8, u8>;
 
 #[derive(Clone, Copy, Debug, PartialEq, Eq, Hash, Serialize)]
 pub struct TF {
-    /// |F(0)|, |F(1)|
-    pub n: [usize; 2],
+    /// |F(0)|, |F(1)|, |F(2)| (a third node label is used by a few slices only)
+    pub n: [usize; 3],
     /// 0 single operation, 1 two-stage composite, 2 spider-only merge, 3 disconnected (discard / create),
     /// 4 two-stage composite handed over as an un-quotiented lax composite (lax entry points only)
     pub recipe: u8,
@@ -21,7 +21,7 @@ pub fn all_tfs(max_len: usize, recipes: &[u8]) -> Vec<TF> {
     for &r in recipes {
         for a in 0..=max_len {
             for b in 0..=max_len {
-                v.push(TF { n: [a, b], recipe: r });
+                v.push(TF { n: [a, b, (a + b + 1) % (max_len + 1)], recipe: r });
             }
         }
     }
@@ -30,7 +30,7 @@ pub fn all_tfs(max_len: usize, recipes: &[u8]) -> Vec<TF> {
 
 impl TF {
     pub fn obj(&self, l: u8) -> Vec<u8> {
-        let l = l.min(1);
+        let l = l.min(2);
         (0..self.n[l as usize]).map(|k| 10 * (l + 1) + k as u8).collect()
     }
     pub fn objs(&self, ls: &[u8]) -> Vec<u8> {
